@@ -288,7 +288,7 @@ func init() {
 		RequiredFeatures: func(tier string) []string {
 			f := []string{"dead-dealer", "dead-sb", "heads-up", "next-bb-with-busted-player", "slots=3", "slots=4", "slots=5", "slots=6"}
 			if tier == "thorough" {
-				f = append(f, "slots=7", "slots=8", "slots=9", "slots=10", "slots=3,dead-dealer", "slots=3,dead-sb", "slots=4,dead-dealer", "slots=4,dead-sb")
+				f = append(f, "slots=7", "slots=8", "slots=9", "slots=10", "slots=4,dead-dealer", "slots=4,dead-sb") // (three slots with a dead button seat do not occur: the ring collapses to the from-heads-up rule)
 			}
 			return f
 		},
